@@ -26,24 +26,6 @@ structure Dump where
   uns : List Op := []
   valid : Bool := false
 
-def parseCanonTask (s : String) : Option (Nat × List (String × String)) :=
-  -- <u>{k=v,…}
-  match s.splitOn "{" with
-  | [u, rest] =>
-    match u.toNat?, parseOldMap ("{" ++ rest) with
-    | some u, some m => some (u, m)
-    | _, _ => none
-  | _ => none
-
-def parseCanonDB (s : String) : Option (List (Nat × List (String × String))) :=
-  if !(s.startsWith "[" && s.endsWith "]") then none
-  else
-    let inner := ((s.drop 1).dropEnd 1).toString
-    if inner.isEmpty then some []
-    else (inner.splitOn ";").foldr (fun t acc => match acc, parseCanonTask t with
-      | some l, some x => some (x :: l)
-      | _, _ => none) (some [])
-
 def dbOf (l : List (Nat × List (String × String))) : DB :=
   fun u => (l.find? (·.1 == u)).map fun p => TaskMap.ofList p.2
 
